@@ -346,6 +346,7 @@ class ConnModel(object):
         self.allocated = False
         self.claimed = False
         self.claim_refused = False
+        self.lingering = False
         self.np = None
         self.released = False
         self.named = None
